@@ -150,3 +150,25 @@ class TemplateEmitTask(Task):
         if self.replay_fn:
             return self.replay_fn(witness)
         return (None, "no native replay")
+
+
+def soften(rs, replay_fn, only=None):
+    """Obligations that read the SHAPE of the code (AST tables) cannot tell a defect from an unrecognised but equivalent way
+    of writing the same thing.  A failure of such an obligation is reported as refuted only if the property's own native
+    oracle (the obligation's replay) reproduces a failing input; otherwise it is undecided ('unknown'), never an alarm."""
+    bad = [r for r in rs if r.status == "refuted" and (only is None or only(r))]
+    if not bad:
+        return rs
+    try:
+        violated, detail = replay_fn(None)
+    except Exception as ex:  # the oracle itself could not run: leave the verdicts as they are
+        return rs
+    if violated:
+        for r in bad:
+            r.detail = (r.detail or "") + f" | native oracle: {str(detail)[:200]}"
+        return rs
+    for r in bad:
+        r.status = "unknown"
+        r.witness = None
+        r.detail = "code shape not recognised and the native oracle finds no failing input: " + (r.detail or "")
+    return rs
